@@ -302,6 +302,7 @@ def run(P, R, tier):
     logkdone_rule(P, R)
     mbnorm_rule(P, R)
     tidyonce_rule(P, R)
+    calcalk_rule(P, R)
     loopindex_rule(P, R)
 
 
@@ -1087,3 +1088,34 @@ def tidyonce_rule(P, R):
         visit(f["body"], [])
     if n < 2:
         R.anchor_missing(RULE, "only %d in-place multiplicative updates found in the tidy_* functions" % n)
+
+
+def calcalk_rule(P, R):
+    """"species molalities weighted by stoichiometry add up to the reported ... alkalinity": the alkalinity of a species (species::alk) is
+    computed once by calc_alk as the sum over ALL terms of its reaction, rewritten to master species, of coefficient x alkalinity of the
+    master - the electron included (every shipped database gives e- an alkalinity).  The accumulating statement must be executed for every
+    term the loop visits: a direct statement of the loop body, not under a condition on the kind of species."""
+    RULE = "C01.calcalk"
+    R.rule(RULE, "calc_alk: coef * master->alk is accumulated for every term of the reaction (no condition on the species of the term)", minimum=1)
+    f = P.one("Phreeqc::calc_alk")
+    loops = [x for x in T.walk(f["body"]) if x[0] in ("While", "For")]
+    if len(loops) != 1:
+        R.anchor_missing(RULE, "calc_alk: %d loops" % len(loops))
+        return
+    body = loops[0][3] if loops[0][0] == "While" else loops[0][5]
+    direct = body[2] if T.is_node(body) and body[0] == "Compound" else [body]
+
+    def is_acc(st):
+        return T.is_node(st) and st[0] == "Bin" and st[2] == "+=" and any(y[0] == "Member" and y[2] == "master::alk" for y in T.walk(st[4])) and \
+            any(y[0] == "Member" and y[2].endswith("::coef") for y in T.walk(st[4]))
+    accs = [w for w in T.walk(body) if is_acc(w)]
+    if len(accs) != 1:
+        R.anchor_missing(RULE, "calc_alk: %d accumulating statements" % len(accs))
+        return
+    if any(st is accs[0] for st in direct):
+        R.ok(RULE, "calc_alk", "accumulated unconditionally for every term (line %d)" % accs[0][1])
+    else:
+        conds = [x for x in T.walk(body) if x[0] == "If" and any(w is accs[0] for w in T.walk(x))]
+        R.violation(RULE, "calc_alk", "the alkalinity of a term is added only under `%s`: terms of other kinds (the electron has type EMINUS and an alkalinity in every database) "
+                    "are left out, species::alk and with it the reported alkalinity no longer equal the stoichiometric sum" % (T.text(conds[0][2])[:60] if conds else "a condition"),
+                    file=f["file"], line=accs[0][1], function=f["q"])
